@@ -8,6 +8,12 @@ fn found(what: &str, fields: String) -> ! {
 
 fn main() {
     use spec::*;
+    // a panic inside the real code (e.g. build_library's debug_assert_eq!(canon_pat.tt(), canonical)) is a failing input too
+    std::panic::set_hook(Box::new(|info| {
+        let msg = info.to_string().replace('"', "'").replace('\n', " ");
+        println!("FOUND {{\"panic\":\"{}\"}}", msg);
+        std::process::exit(1);
+    }));
     let mut n: u64 = 0;
     // ALL_PERMS
     for i in 0..24 {
@@ -73,6 +79,39 @@ fn main() {
                     }
                     if w < c {
                         found("npn_canonical", format!("\"tt\":{},\"canonical\":{},\"smaller\":{},\"by_transform\":\"{:?}\",\"expected\":\"canonical is least in the NPN class\"", tt, c, w, other));
+                    }
+                    n += 1;
+                }
+            }
+        }
+    }
+    // transform_pattern on every pattern with at most one gate (builder shape) and every transform, before the library is touched
+    let mut small: Vec<AigPattern> = Vec::new();
+    for out in 0..4u8 {
+        for on in [false, true] {
+            small.push(AigPattern { ands: vec![], output: PatEdge(out, on) });
+        }
+    }
+    for a in 0..4u8 {
+        for b in 0..4u8 {
+            for (an, bn) in [(false, false), (false, true), (true, false), (true, true)] {
+                for out in 0..5u8 {
+                    for on in [false, true] {
+                        small.push(AigPattern { ands: vec![(PatEdge(a, an), PatEdge(b, bn))], output: PatEdge(out, on) });
+                    }
+                }
+            }
+        }
+    }
+    for p in small.iter() {
+        for i in 0..24usize {
+            for neg in 0..16u8 {
+                for o in [false, true] {
+                    let t = NpnTransform { perm: ALL_PERMS[i], in_neg: neg, out_neg: o };
+                    let q = transform_pattern(p, t);
+                    let want = npn_table(p.tt(), t.perm, neg, o);
+                    if !wf_pattern(&q) || q.size() != p.size() || q.tt() != want {
+                        found("transform_pattern", format!("\"pattern\":\"{:?}\",\"transform\":\"{:?}\",\"result\":\"{:?}\",\"actual\":{},\"expected\":{}", p, t, q, q.tt(), want));
                     }
                     n += 1;
                 }
